@@ -3,13 +3,89 @@ package main
 import (
 	"encoding/json"
 	"fmt"
+	"net/http"
+	"regexp"
 	"sort"
+	"strconv"
 	"strings"
 	"time"
+
+	"github.com/buildbuildio/pebbles"
+	"github.com/buildbuildio/pebbles/planner"
+	"github.com/buildbuildio/pebbles/queryer"
+	"github.com/buildbuildio/pebbles/requests"
 
 	"verif/harness/fed"
 	"verif/harness/hx"
 )
+
+// ---- operation-bound queryers -------------------------------------------------------------------
+// The queryer factory is handed the planning context of ONE client operation, and a real factory
+// may depend on it (credentials, tenant, tracing scope of that operation). Isolation of per-request
+// state includes the queryers: the sub-requests of operation i must travel through queryers built
+// for operation i. In the "bound" half of the cases every executed operation of the batch carries
+// its position as the alias of its first root field (`op3x: field`), the factory remembers which
+// operation it built a queryer for, and the queryer REFUSES a sub-request that carries another
+// operation's mark — like a credential-scoped client would. Sent alone, an operation never meets
+// a foreign queryer, so any refusal shows up as a difference between the batch and the singles.
+
+var c08MarkRe = regexp.MustCompile(`\bop(\d+)x\s*:`)
+
+func c08Owner(q string) int {
+	if m := c08MarkRe.FindStringSubmatch(q); m != nil {
+		n, _ := strconv.Atoi(m[1])
+		return n
+	}
+	return -1
+}
+
+type c08BoundQ struct {
+	queryer.Queryer
+	owner int
+}
+
+func (b *c08BoundQ) Query(in []*requests.Request) ([]map[string]interface{}, error) {
+	for _, r := range in {
+		if j := c08Owner(r.Query); j >= 0 && b.owner >= 0 && j != b.owner {
+			return nil, fmt.Errorf("queryer built for operation %d was handed a sub-request of operation %d", b.owner, j)
+		}
+	}
+	return b.Queryer.Query(in)
+}
+
+func c08BoundFactory(f *fed.Fed) pebbles.GatewayOption {
+	client := &http.Client{Transport: &fed.Transport{Fed: f}}
+	return pebbles.WithQueryerFactory(func(ctx *planner.PlanningContext, url string) queryer.Queryer {
+		q := queryer.NewMultiOpQueryer(url, 3000).WithHTTPClient(client)
+		owner := -1
+		if ctx != nil && ctx.Request != nil {
+			owner = c08Owner(ctx.Request.Query)
+			if ctx.Request.Original != nil {
+				q = q.WithContext(ctx.Request.Original.Context())
+			}
+		}
+		return &c08BoundQ{Queryer: q, owner: owner}
+	})
+}
+
+// c08MarkOp aliases the first field of the operation's selection set (the first `{` outside the
+// parentheses of the variable definitions) with `op<i>x`.
+func c08MarkOp(q string, i int) string {
+	depth := 0
+	for k, c := range q {
+		switch c {
+		case '(':
+			depth++
+		case ')':
+			depth--
+		case '{':
+			if depth == 0 {
+				return q[:k] + c08Mark(q[k:], fmt.Sprintf("op%dx", i))
+			}
+		}
+	}
+	return q
+}
 
 func init() {
 	register("C08", runC08)
@@ -88,7 +164,20 @@ func c08Check(ctx *Ctx, idx int, cs c08Case) {
 		ctx.Rep.Fail(hx.Failure{Kind: "harness-error", Detail: err.Error(), Case: cs, Index: idx})
 		return
 	}
-	gw, err := f.NewGateway(fed.GatewayConfig{})
+	bound := idx%2 == 1 && len(cs.Batch) >= 2 && len(cs.Batch) <= 16
+	gcfg := fed.GatewayConfig{}
+	if bound {
+		gcfg.Options = []pebbles.GatewayOption{c08BoundFactory(f)}
+		marked := append([]c08Item(nil), cs.Batch...)
+		for i := range marked {
+			if marked[i].Kind == "query" || marked[i].Kind == "mutation" {
+				marked[i].Query = c08MarkOp(marked[i].Query, i)
+			}
+		}
+		cs = c08Case{FedSeed: cs.FedSeed, Batch: marked}
+		ctx.Rep.Count("queryers bound to their operation")
+	}
+	gw, err := f.NewGateway(gcfg)
 	if err != nil {
 		ctx.Rep.Count("federation does not merge")
 		return
